@@ -300,6 +300,10 @@ func (w *world) treeSequence(f *treeFixture, scripted int, viaHandler bool) {
 		z := mockChange{id: "c03", prev: []string{"c02"}, snapshot: rootId}
 		h := mockChange{id: "c04", prev: []string{rootId}, snapshot: rootId}
 		calls = [][]mockChange{{x}, {y}, {z}, {h}, {x, y, z}}
+	case 7, 8: // one honest change, then (below) a full-sync request whose snapshot path has nothing in common with ours
+		a := mockChange{id: "c01", prev: []string{rootId}, snapshot: rootId}
+		b := mockChange{id: "c02", prev: []string{"c01"}, snapshot: rootId}
+		calls = [][]mockChange{{a}, {b}}
 	case 6: // snapshot id that is not a snapshot / unknown, waiting child, then the parent
 		a := mockChange{id: "c01", prev: []string{rootId}, snapshot: rootId}
 		b := mockChange{id: "c02", prev: []string{"c01"}, snapshot: "c01"}
@@ -401,7 +405,12 @@ func (w *world) treeSequence(f *treeFixture, scripted int, viaHandler bool) {
 		}
 		w.r.Count("tree.seq.add." + cls(err))
 		// hostile full-sync requests in between (the peer asks instead of telling)
-		if r.Chance(35) {
+		if scripted == 7 || scripted == 8 {
+			// rejected (or answered) request, then the probes below
+			if w.hostileRequestKind("tree.sequence", tr, rootId, root, &trace, scripted-7, 0) {
+				return
+			}
+		} else if r.Chance(35) {
 			if w.hostileRequest("tree.sequence", tr, rootId, root, &trace) {
 				return
 			}
@@ -438,9 +447,20 @@ func kindOr(k string) string {
 // snapshot paths the responder knows nothing about, probe flag, damaged encodings. Rejection with an
 // error is fine; the probes that follow show whether the tree is still usable.
 func (w *world) hostileRequest(stream string, tr objecttree.ObjectTree, treeId string, root *treechangeproto.RawTreeChangeWithId, trace *[]string) (stop bool) {
+	return w.hostileRequestKind(stream, tr, treeId, root, trace, -1, -1)
+}
+
+// hostileRequestKind: headsKind / pathKind < 0 = random
+func (w *world) hostileRequestKind(stream string, tr objecttree.ObjectTree, treeId string, root *treechangeproto.RawTreeChangeWithId, trace *[]string, headsKind, pathKind int) (stop bool) {
 	r := w.r
 	var heads, path []string
-	switch r.Intn(5) {
+	if headsKind < 0 {
+		headsKind = r.Intn(5)
+	}
+	if pathKind < 0 {
+		pathKind = r.Intn(6)
+	}
+	switch headsKind {
 	case 0:
 		heads = append(heads, tr.Heads()...)
 	case 1:
@@ -448,7 +468,7 @@ func (w *world) hostileRequest(stream string, tr objecttree.ObjectTree, treeId s
 	case 2:
 		heads = append(append(heads, tr.Heads()...), "unknown-head")
 	}
-	switch r.Intn(6) {
+	switch pathKind {
 	case 0:
 		path = []string{"nosuch"} // nothing in common with ours
 	case 1:
@@ -460,15 +480,15 @@ func (w *world) hostileRequest(stream string, tr objecttree.ObjectTree, treeId s
 	case 4:
 		path = []string{""}
 	}
-	req := &treechangeproto.TreeFullSyncRequest{Heads: heads, SnapshotPath: path, Probe: r.Chance(15)}
+	req := &treechangeproto.TreeFullSyncRequest{Heads: heads, SnapshotPath: path, Probe: r.Chance(15) && headsKind+pathKind > 0}
 	b, _ := treechangeproto.WrapFullRequest(req, root).MarshalVT()
 	step := fmt.Sprintf("request heads=%s path=%s probe=%v", strings.Join(heads, ","), strings.Join(path, ","), req.Probe)
-	if r.Chance(10) {
+	if r.Chance(10) && headsKind+pathKind > 0 {
 		b = w.mutateProto(b, 0)
 		step += " (message damaged)"
 	}
 	*trace = append(*trace, step)
-	err, pan, hung := guarded(func() error { return newHeadUpdater(tr, treeId, root).request(b) })
+	err, pan, hung := guardedFor(probeGuard, func() error { return newHeadUpdater(tr, treeId, root).request(b) })
 	w.r.Count(stream + ".request." + cls(err))
 	return w.seqVerdict(stream+".request", *trace, pan, hung)
 }
